@@ -12,7 +12,7 @@ for d in $V/selftest/mutants/$pat/ $V/seeded/$pat/; do
   name=$(basename $d)
   prop=$(python3 -c "import json;print(json.load(open('$d/meta.json'))['property'])")
   expect=$(python3 -c "import json;print(json.load(open('$d/meta.json')).get('expect','violation'))")
-  scratch=$(mktemp -d /tmp/govc-selftest.XXXXXX)
+  scratch=$(mktemp -d ${TMPDIR:-/tmp}/govc-st-$$-XXXXXX)
   rsync -a --exclude .git $REPO/ $scratch/
   if ! (cd $scratch && patch -p1 -s < $d/patch.diff); then echo "SELFTEST $name: patch does not apply"; bad=$((bad+1)); rm -rf $scratch; continue; fi
   out=$(${GOVC_BIN:-$V/bin/govc} check -p $prop -repo $scratch -verif $V -noevidence ${PAR:+-par $PAR} 2>&1); code=$?
